@@ -99,6 +99,17 @@ func TestVerifC04Procs(t *testing.T) {
 			(&Counter{name: name, file: files[0]}).Add(1)
 			prefilled[name] = 1
 		}
+		// one case in eight: every amount is close to 2^63, so that the shared value reaches its limit through several
+		// processes adding at the same time (it must stick at 2^64-1, never wrap). An amount above 2^33-1 that is parked
+		// in memory first is cut there (documented), so these cases assert the clauses that hold regardless: the value
+		// never decreases, no process is credited with more than it began, the file stays well-formed.
+		hugeAdds := rapid.IntRange(0, 7).Draw(t, "hugeAdds") == 0
+		satAdd := func(a, b uint64) uint64 {
+			if a+b < a {
+				return ^uint64(0)
+			}
+			return a + b
+		}
 		progs := make([][]c04Op, nprocs)
 		counters := make([]map[int]*Counter, nprocs)
 		for p := range progs {
@@ -109,6 +120,10 @@ func TestVerifC04Procs(t *testing.T) {
 			}
 			for j, n := 0, rapid.IntRange(1, maxOps).Draw(t, "nops"); j < n; j++ {
 				op := c04Op{name: rapid.IntRange(0, nnames-1).Draw(t, "name"), n: rapid.Int64Range(1, 50).Draw(t, "n")}
+				if hugeAdds {
+					op.name = op.name % 2 // few names, so that the processes meet
+					op.n = rapid.SampledFrom([]int64{1<<63 - 1, 1<<63 - 1, 1 << 62}).Draw(t, "hugeN")
+				}
 				progs[p] = append(progs[p], op)
 				if counters[p][op.name] == nil {
 					counters[p][op.name] = &Counter{name: names[op.name], file: files[p]}
@@ -136,7 +151,7 @@ func TestVerifC04Procs(t *testing.T) {
 					inOp[p] = false
 				}
 				for _, op := range progs[p] {
-					begun[p][op.name] += uint64(op.n)
+					begun[p][op.name] = satAdd(begun[p][op.name], uint64(op.n))
 					inOp[p] = true
 					counters[p][op.name].Add(op.n)
 					inOp[p] = false
@@ -232,7 +247,7 @@ func TestVerifC04Procs(t *testing.T) {
 					t.Fatalf("step %d (process %d at %s): value of %q decreased %d -> %d", step, p, th.Site, shortName(name), last[name], v)
 				}
 				if d := v - last[name]; d > 0 {
-					attributed[p][name] += d
+					attributed[p][name] = satAdd(attributed[p][name], d)
 				}
 				last[name] = v
 			}
@@ -268,6 +283,12 @@ func TestVerifC04Procs(t *testing.T) {
 					continue
 				}
 				extra := c.state.load().extra()
+				if hugeAdds {
+					if extra != 0 {
+						t.Fatalf("quiescence: surviving process %d still holds %d for %q in memory (file error state: %v)", p, extra, shortName(name), files[p].err)
+					}
+					continue
+				}
 				if extra != 0 || attributed[p][name] != begun[p][i] {
 					t.Fatalf("quiescence: surviving process %d has added %d of its %d to %q and still holds %d in memory (file error state: %v): it was made to fail by what another process did",
 						p, attributed[p][name], begun[p][i], shortName(name), extra, files[p].err)
@@ -289,7 +310,7 @@ func TestVerifC04Procs(t *testing.T) {
 		vstats.Case(fmt.Sprintf("procs=%s schedule(len %d, %d switches)=%v", strings.Join(ps, " "), len(trace), switches, tail(trace, 50)),
 			interleavedCreate || killedInside, fmt.Sprintf("interleavedCreate:%v", interleavedCreate), fmt.Sprintf("killedInside:%v", killedInside),
 			fmt.Sprintf("killed:%d", killed), fmt.Sprintf("pages:%d", lastSize/vformat.Page),
-			fmt.Sprintf("openInRace:%v", openInRace), fmt.Sprintf("manyLongNames:%v", manyLong), fmt.Sprintf("sawFileUnderCreation:%v", creatingFile), fmt.Sprintf("killedWhileCreating:%v", killedCreating))
+			fmt.Sprintf("openInRace:%v", openInRace), fmt.Sprintf("manyLongNames:%v", manyLong), fmt.Sprintf("hugeAdds:%v", hugeAdds), fmt.Sprintf("sawFileUnderCreation:%v", creatingFile), fmt.Sprintf("killedWhileCreating:%v", killedCreating))
 		vstats.Note("scheduler_steps", int64(len(trace)))
 	})
 }
